@@ -177,6 +177,11 @@ class Rename:
         )
 
     def _rename_module(self, resource, new_name, changes):
+        if not new_name.isidentifier():
+            # the name becomes part of a path: "../x" would leave the project
+            raise exceptions.RefactoringError(
+                f"Invalid module name. '{new_name}' is not an identifier."
+            )
         if not resource.is_folder():
             new_name = new_name + ".py"
         parent_path = resource.parent.path
